@@ -6,7 +6,7 @@ EXTENDS Integers, Sequences, FiniteSets, Json, TLC
 CONSTANT Grain
 Ops == {"delete", "insert", "replace", "duplicate", "swap", "dupline", "delline"}
 Toks == {"comma", "colon", "lbracket", "rbracket", "plus", "minus", "star", "slash", "lparen", "rparen", "quote", "squote", "bignum",
-         "hexjunk", "ident", "reg", "opcode", "EQU", "GLOBAL", "BYTE", "dollar", "lbrace", "nul", "tab", "cr", "semicolon", "hash", "dot", "backslash", "utf8"}
+         "hexjunk", "ident", "reg", "opcode", "EQU", "GLOBAL", "BYTE", "dollar", "lbrace", "nul", "tab", "cr", "semicolon", "hash", "dot", "backslash", "utf8", "emptystr", "emptychr", "blankstr", "segoff"}
 Universe == {[op |-> o, at |-> a, with |-> w] : o \in Ops, a \in 0..(Grain - 1), w \in Toks}
 VARIABLE c
 Init == c \in Universe
